@@ -919,6 +919,12 @@ impl Scenario for MigScenario {
                             AdvanceStep::Broadcast { id } => {
                                 let t = state.transactions().iter().find(|t| t.id() == id).cloned().unwrap();
                                 let txid: [u8; 32] = *t.txid().as_ref();
+                                // what the wallet's own scan has seen mined is promoted, never offered again
+                                ctx.oracle("broadcast_not_offered_for_scanned_mined_transaction");
+                                if let Some(h) = world.mined.get(&txid).filter(|h| **h <= world.scanned) {
+                                    ch.close();
+                                    return self.v(ctx, false, Violation::new("broadcast_not_offered_for_scanned_mined_transaction", format!("{id:?} is offered for broadcast although the wallet has scanned it mined at {h} (scanned {}): {}", world.scanned, summarize_tx(&t))));
+                                }
                                 // a transaction the node already has (its first submission went through, only the record was
                                 // lost) may be answered with a rejection: the consumer reports a failure for a transaction that
                                 // is in fact on its way into a block
